@@ -224,12 +224,14 @@ class Translator:
             return self.subscript(node, env, heap)
         if isinstance(node, ast.BoolOp):
             vals = []
+            is_and = isinstance(node.op, ast.And)
             for i, v in enumerate(node.values):
                 n0 = len(self.pending)
                 vals.append(self.truth(self.expr(v, env, heap), node))
                 if len(self.pending) != n0 and any(x[0] != "static" for x in vals[:-1]):
                     _bad(node, "short-circuited operand can raise")
-            is_and = isinstance(node.op, ast.And)
+                if vals[-1][0] == "static" and vals[-1][1] != is_and:
+                    break       # decided at translation time: Python does not evaluate the remaining operands
             out = []
             for v in vals:
                 if v[0] == "static":
